@@ -73,6 +73,15 @@ fn two_packets(a: u64, b: u64) {
         // RFC 9000 13.2.1: out of order / gap / CE => acknowledge immediately
         assert!(active);
     }
+    if active {
+        // a due ACK is not subject to congestion control (RFC 9002 7: ACK-only packets are not
+        // congestion controlled): it can go out while the sender is congestion limited or may only
+        // retransmit - but never past the anti-amplification limit
+        assert!(mgr.can_transmit(transmission::Constraint::None));
+        assert!(mgr.can_transmit(transmission::Constraint::CongestionLimited));
+        assert!(mgr.can_transmit(transmission::Constraint::RetransmissionOnly));
+        assert!(!mgr.can_transmit(transmission::Constraint::AmplificationLimited));
+    }
     if !active {
         // nothing due yet: any ack-eliciting packet seen so far has an armed deadline, and the first
         // deadline was not pushed back by the second packet
